@@ -28,6 +28,8 @@ POOL = c09.POOL + [
     "str(pow(10, 5000)).len()", "int('7' * 6000) mod 1000",
     # helpers the host defined once in the shared context (yaql-level functions: def())
     "addTen($.sum())", "$.select(sq($)).sum() + addTen($.len())", "$.select(addTen($)).where($ > 11).len()",
+    # results that hand out objects of the shared context (and the empty collection every evaluation knows)
+    "$fz.k", "{a => $fz.k, b => [], c => $cfg.k}",
     # values of the shared context used where they must be hashed
     "[$fz.a, $fz.b].distinct().len()", "[$fz.a, $fz.b, $fz.a].toSet().len() + $.len()", "$.select($fz.b).distinct().len()",
 ]
